@@ -3,6 +3,10 @@ CONSTANTS ConvChoices <- ConvThorough
   RangeLows <- LowsAll
   RangeUps <- UpsAll
 INVARIANT OnePointPerCell
+INVARIANT BadModeRaises
+INVARIANT BothRangesRaise
+INVARIANT CsvEnds
+INVARIANT CsvPasses
 INVARIANT IteratorsAgree
 INVARIANT RangesChecked
 INVARIANT CsvOneRowPerCell
